@@ -1,0 +1,13 @@
+//go:build verif
+
+package statedb
+
+import "github.com/ethereum/go-ethereum/common"
+
+// VerifDirtyCount returns how many journal entries currently mark addr dirty, i.e.
+// whether Commit would write the object of addr back to the keeper.
+//
+// Verification hook: read-only and compiled only with the build tag "verif".
+func (s *StateDB) VerifDirtyCount(addr common.Address) int {
+	return s.journal.dirties[addr]
+}
